@@ -726,4 +726,180 @@ Proof.
   unfold cU at 1. ev. destruct (cU s) as [|x r]; cbn [hd] in Hc; [lia|]. cbn [lexlt]. left. lia.
 Qed.
 
+
+(* ---- the bodies of the reading states: not held afterwards, event machine untouched ---- *)
+Definition RB (s s' : state) : Prop := NH s' /\ u s' = u s.
+
+Ltac rb_fin := unf_helpers; unfold RB; split; [nh_fin | ev; reflexivity].
+Ltac brk_if := repeat match goal with |- context [if ?x then _ else _] => destruct x end.
+
+Lemma error_body_RB : forall ch s, NH s ->
+  RB s (if (ch =? ch_LF)%N then ack_error s else if (ch =? ch_CR)%N then setk_cr true s else s).
+Proof. intros ch s Hnh. brk_if; rb_fin. Qed.
+
+Lemma idle_body_RB : forall ch s, NH s ->
+  RB s (if (ch =? ch_A)%N then setk_state CS_PARSE_PREFIX s
+        else if (ch =? ch_LF)%N || (ch =? ch_CR)%N then s else setk_state CS_ERROR s).
+Proof. intros ch s Hnh. brk_if; rb_fin. Qed.
+
+Lemma prefix_body_RB : forall ch s, NH s ->
+  RB s (if (ch =? ch_T)%N then s |> prepare_parse_command |> setk_state CS_PARSE_COMMAND_CHAR
+        else if (ch =? ch_LF)%N then ack_error s
+        else if (ch =? ch_CR)%N then setk_cr true s
+        else setk_state CS_ERROR s).
+Proof. intros ch s Hnh. brk_if; rb_fin. Qed.
+
+Lemma parse_command_body_RB : forall ch s, NH s ->
+  RB s (if (ch =? ch_LF)%N then
+          if negb (k_length (k s) =? 0) then s |> prepare_search_command |> setk_state CS_SEARCH_COMMAND
+          else ack_ok s
+        else if (ch =? ch_CR)%N then setk_cr true s
+        else if (ch =? ch_QM)%N then
+          if k_length (k s) =? 0 then setk_state CS_ERROR s
+          else s |> setk_type T_READ |> setk_state CS_WAIT_READ_ACK
+        else if (ch =? ch_EQ)%N then
+          if k_length (k s) =? 0 then setk_state CS_ERROR s
+          else s |> setk_type T_WRITE |> prepare_search_command |> setk_state CS_SEARCH_COMMAND
+        else if is_name_char ch then
+          s |> setk_length (S (k_length (k s))) |> setk_state CS_UPDATE_COMMAND_STATE
+        else setk_state CS_ERROR s).
+Proof. intros ch s Hnh. brk_if; rb_fin. Qed.
+
+Lemma wait_read_body_RB : forall ch s, NH s ->
+  RB s (if (ch =? ch_LF)%N then s |> prepare_search_command |> setk_state CS_SEARCH_COMMAND
+        else if (ch =? ch_CR)%N then setk_cr true s
+        else setk_state CS_ERROR s).
+Proof. intros ch s Hnh. brk_if; rb_fin. Qed.
+
+Lemma wait_test_body_RB : forall ch s, NH s -> cmd_ok D (k_cmd (k s)) ->
+  RB s (if (ch =? ch_LF)%N then start_processing_format_test_args D ATCMD s
+        else if (ch =? ch_CR)%N then setk_cr true s
+        else setk_state CS_ERROR s).
+Proof.
+  intros ch s Hnh Hc. destruct (ch =? ch_LF)%N; [|brk_if; rb_fin].
+  destruct (spfta_TG ATCMD s Hnh Hc) as (A & B & _). split; assumption.
+Qed.
+
+Lemma parse_command_args_body_RB : forall ch s, NH s ->
+  RB s (match cmd_of D ATCMD s with
+    | None => set_fault_flag s
+    | Some c =>
+      if (ch =? ch_LF)%N then
+        if c_only_test c then ack_error s
+        else if vars_access_possible c WO then
+          s |> setk_state CS_PARSE_WRITE_ARGS |> setk_position 0 |> setk_index 0 |> setk_var 0
+        else if negb (c_hwrite c) then ack_error s
+        else s |> setk_index 0 |> setk_state CS_WRITE_LOOP
+      else if (ch =? ch_CR)%N then setk_cr true s
+      else if (k_length (k s) =? 0) && (ch =? ch_QM)%N
+              && (c_htest c || match c_vars c with [] => false | _ => true end)
+              && negb (c_implicit c)
+      then s |> setk_type T_TEST |> setk_state CS_WAIT_TEST_ACK
+      else
+        let len := k_length (k s) in
+        if asz s <=? len then setk_state CS_ERROR s
+        else
+          let s1 := s |> set_cbuf (upd (cbuf s) len ch) |> setk_length (S len) in
+          if S len <? asz s1 then set_cbuf (upd (cbuf s1) (S len) 0%N) s1
+          else setk_state CS_ERROR s1
+    end).
+Proof.
+  intros ch s Hnh. destruct (cmd_of D ATCMD s) as [c|]; [|rb_fin]. cbv zeta.
+  destruct (ch =? ch_LF)%N; [brk_if; rb_fin|].
+  destruct (ch =? ch_CR)%N; [rb_fin|].
+  destruct (_ && _ && _ && _); [rb_fin|].
+  destruct (_ <=? _); [rb_fin|]. destruct (_ <? _); rb_fin.
+Qed.
+
+(* ---- handler results: the continuations of the loop states ---- *)
+Lemma NH_hold_exit : forall s z, NH s -> fst (hold_exit s z) = s.
+Proof. intros s z [A B]. unfold hold_exit. rewrite A. reflexivity. Qed.
+
+Lemma NH_apply_edit : forall f e s, NH s -> NH (apply_edit f e s).
+Proof.
+  intros f e s Hnh. destruct (apply_edit_eff f e s) as [E | (b & p & E & _)]; rewrite E; [exact Hnh|].
+  destruct f; nh_fin.
+Qed.
+
+Lemma u_apply_edit_A : forall e s, u (apply_edit ATCMD e s) = u s.
+Proof. intros e s. destruct (apply_edit_eff ATCMD e s) as [E | (b & p & E & _)]; rewrite E; reflexivity. Qed.
+
+Definition write_tail (code : Z) (s : state) : state :=
+  if (code =? RC_OK)%Z || (code =? RC_DATA_OK)%Z then ack_ok s
+  else if (code =? RC_DATA_NEXT)%Z || (code =? RC_NEXT)%Z then s
+  else if (code =? RC_HOLD)%Z then enable_hold_state s
+  else ack_error s.
+
+Definition run_tail (code : Z) (s : state) : state :=
+  if (code =? RC_OK)%Z || (code =? RC_DATA_OK)%Z then ack_ok s
+  else if (code =? RC_DATA_NEXT)%Z || (code =? RC_NEXT)%Z then s
+  else if (code =? RC_HOLD)%Z then enable_hold_state s
+  else if (code =? RC_PRINT_CMD_LIST_OK)%Z then start_print_cmd_list D s
+  else ack_error s.
+
+Definition rt_tail (rd : bool) (f : fsm) (r : hres) (s : state) : state :=
+  let code := r_code r in
+  let s := apply_edit f (r_edit r) s in
+  if (code =? RC_OK)%Z then end_with_ok f s
+  else if (code =? RC_DATA_OK)%Z then start_flush_after f CS_AFTER_OK US_AFTER_OK s
+  else if (code =? RC_DATA_NEXT)%Z then
+    (if rd then start_flush_after f CS_AFTER_FMT_READ US_AFTER_FMT_READ s
+     else start_flush_after f CS_AFTER_FMT_TEST US_AFTER_FMT_TEST s)
+  else if (code =? RC_NEXT)%Z then
+    (if rd then start_processing_format_read_args D f s
+     else start_processing_format_test_args D f s)
+  else if (code =? RC_HOLD)%Z then enable_hold_state s
+  else if (code =? RC_HOLD_EXIT_OK)%Z then end_with_ok f (fst (hold_exit s ST_OK))
+  else if (code =? RC_HOLD_EXIT_ERROR)%Z then end_with_error f (fst (hold_exit s ST_ERROR))
+  else if (code =? RC_PRINT_CMD_LIST_OK)%Z && negb rd then
+    match f with ATCMD => start_print_cmd_list D s | UNSOL => end_with_ok f s end
+  else end_with_error f s.
+
+Lemma write_tail_NH : forall code s, NH s -> (code =? RC_HOLD)%Z = false -> NH (write_tail code s).
+Proof. intros code s Hnh Hc. unfold write_tail. rewrite Hc. brk_if; unf_helpers; try exact Hnh; nh_fin. Qed.
+
+Lemma start_print_cmd_list_NH : forall s, NH s -> NH (start_print_cmd_list D s).
+Proof. intros s Hnh. unfold start_print_cmd_list. brk_if; unf_helpers; nh_fin. Qed.
+
+Lemma run_tail_NH : forall code s, NH s -> (code =? RC_HOLD)%Z = false -> NH (run_tail code s).
+Proof.
+  intros code s Hnh Hc. unfold run_tail. rewrite Hc. clear Hc.
+  destruct (_ || _); [unf_helpers; nh_fin|]. destruct (_ || _); [exact Hnh|].
+  destruct (code =? RC_PRINT_CMD_LIST_OK)%Z; [apply start_print_cmd_list_NH; exact Hnh | unf_helpers; nh_fin].
+Qed.
+
+Lemma TG_NH : forall f nc nu s s', TG f nc nu s s' -> NH s'.
+Proof. intros [|] nc nu s s' H; apply H. Qed.
+
+Lemma rt_tail_NH : forall rd f r s, NH s -> (r_code r =? RC_HOLD)%Z = false ->
+  cmd_ok D (g_cmd f (apply_edit f (r_edit r) s)) -> NH (rt_tail rd f r s).
+Proof.
+  intros rd f r s Hnh Hc Hk. unfold rt_tail. cbv zeta. rewrite Hc. clear Hc.
+  pose proof (NH_apply_edit f (r_edit r) s Hnh) as H1.
+  set (s1 := apply_edit f (r_edit r) s) in *. clearbody s1.
+  rewrite !NH_hold_exit by exact H1.
+  assert (X1 : NH (end_with_ok f s1)) by (destruct f; unf_helpers; nh_fin).
+  assert (X2 : NH (end_with_error f s1)) by (destruct f; unf_helpers; nh_fin).
+  assert (X3 : forall a b, NH (start_flush_after f a b s1)) by (intros; destruct f; unf_helpers; nh_fin).
+  destruct (r_code r =? RC_OK)%Z; [exact X1|]. destruct (r_code r =? RC_DATA_OK)%Z; [apply X3|].
+  destruct (r_code r =? RC_DATA_NEXT)%Z; [destruct rd; apply X3|].
+  destruct (r_code r =? RC_NEXT)%Z.
+  { destruct rd; [eapply TG_NH, spfra_TG | eapply TG_NH, spfta_TG]; assumption. }
+  destruct (r_code r =? RC_HOLD_EXIT_OK)%Z; [exact X1|]. destruct (r_code r =? RC_HOLD_EXIT_ERROR)%Z; [exact X2|].
+  destruct (_ && _); [|exact X2]. destruct f; [apply start_print_cmd_list_NH; exact H1 | exact X1].
+Qed.
+
+(* an exhausted script answers OK: the loop ends *)
+Lemma write_tail_default_PC : forall s, NH s -> k_state (k s) = CS_WRITE_LOOP -> PC s (write_tail RC_OK s).
+Proof. intros s Hnh Hst. unfold write_tail. cbn. apply ack_ok_PC; [exact Hnh|]. unfold cC. rewrite Hst. cbn. lia. Qed.
+Lemma run_tail_default_PC : forall s, NH s -> k_state (k s) = CS_RUN_LOOP -> PC s (run_tail RC_OK s).
+Proof. intros s Hnh Hst. unfold run_tail. cbn. apply ack_ok_PC; [exact Hnh|]. unfold cC. rewrite Hst. cbn. lia. Qed.
+Lemma rt_tail_default_PG : forall rd f s, NH s -> loop_state f s ->
+  PG f s (rt_tail rd f (mkHres RC_OK None [] []) s).
+Proof.
+  intros rd f s Hnh Hst. unfold rt_tail. cbn. destruct f; cbn [loop_state] in Hst.
+  - apply ack_ok_PC; [exact Hnh|]. unfold cC. destruct Hst as [E|E]; rewrite E; cbn; lia.
+  - apply ureset_PU; [exact Hnh|]. unfold cU. destruct Hst as [E|E]; rewrite E; cbn; lia.
+Qed.
+
 End Pure.
